@@ -66,7 +66,7 @@ class EffectDeriver:
 
     # ------------------------------------------------------------------ helpers
     def _stack_touchers(self) -> Dict[str, Func]:
-        loopf = {f.name for f, _ in self.ctx.facts.dispatch_loops()}
+        loopf = {f.name for f, _ in self.ctx.facts.dispatch_loops()} | {f.name for f in self.ctx.facts.dispatch_wrappers()}
         out = {}
         for m in self.cls.methods.values():
             if m is self.df or m.name in loopf or m.name == "run":
